@@ -281,7 +281,7 @@ def speciesFromFormula (phases : Phases) (default : Option Int) (s : Str) : Exce
   | none => .error "ValueError"
   | some i => mkSubstance (phases.keys ++ speciesExtraSuffixes) (some i) s
 
-/-! ### the reaction printers (`StrPrinter._Reaction_parts` / `_Reaction_str`, no parameter, no name, no inactive groups) -/
+/-! ### the reaction printers (`StrPrinter._Reaction_parts` / `_Reaction_str`, no parameter, no name) -/
 
 inductive Printer | str | latex | unicode | html
 deriving DecidableEq, Repr
@@ -336,11 +336,20 @@ def joinStrs (sep : Str) : List Str → Str
   | [x] => x
   | x :: y :: r => x ++ (sep ++ joinStrs sep (y :: r))
 
-/-- `Reaction.string/latex/unicode/html(substances, with_param=False, with_name=False)` without inactive groups -/
+/-- an inactive group of `_Reaction_parts`: `" + ( " + " + ".join(terms) + ")"` when there is at least one term (zero coefficients
+    are filtered before), else nothing -/
+def inactText (open_ join close : Str) (l : List Str) : Str :=
+  if l.length > 0 then open_ ++ (joinStrs join l ++ close) else []
+
+/-- `Reaction.string/latex/unicode/html(substances, with_param=False, with_name=False)`:
+    `"{}{}%s{}%s{}{}" % around_arrow` filled with reactants, inactive reactants, arrow, products, inactive products -/
 def printReaction (p : Printer) (equilibrium : Bool) (substances : List (Str × Substance))
-    (reac prod : List (Str × Rat)) : Str :=
-  joinStrs Printing.termJoin (printSide p substances reac) ++ (p.around.1 ++ (p.arrow equilibrium ++ (p.around.2 ++
-    joinStrs Printing.termJoinProd (printSide p substances prod))))
+    (reac prod : List (Str × Rat)) (inactReac inactProd : List (Str × Rat) := []) : Str :=
+  joinStrs Printing.termJoin (printSide p substances reac) ++
+    (inactText Printing.inactOpen Printing.inactJoin Printing.inactClose (printSide p substances inactReac) ++
+    (p.around.1 ++ (p.arrow equilibrium ++ (p.around.2 ++
+    (joinStrs Printing.termJoinProd (printSide p substances prod) ++
+     inactText Printing.inactOpenProd Printing.inactJoinProd Printing.inactCloseProd (printSide p substances inactProd))))))
 
 /-! ### SPECIFICATION: the presentation of a formula AST -/
 
@@ -466,6 +475,24 @@ def canonChargeOpt (c : Charge) : Option Charge := if c.val = 0 then none else s
     a zero charge token dropped -/
 def canon (f : Formula) : Formula :=
   { f with sep := .dots, parts := f.parts.map canonPart, charge := f.charge.bind canonChargeOpt }
+
+/-! ### SPECIFICATION: the phase index a written suffix selects -/
+
+/-- position (1-based, counted from `i`) of the first phase equal to the written suffix -/
+def selSeq : List Str → Nat → Option Str → Option Nat
+  | [], _, _ => none
+  | p :: ps, i, sx => if sx = some p then some (i + 1) else selSeq ps (i + 1) sx
+
+/-- value of the first dict entry whose key is the written suffix -/
+def selDict : List (Str × Int) → Option Str → Option Int
+  | [], _ => none
+  | (k, v) :: ps, sx => if sx = some k then some v else selDict ps sx
+
+/-- the index `phases` assigns to the written suffix (none: no suffix, or a suffix `phases` does not list) -/
+def selectIdx (phases : Phases) (sx : Option Str) : Option Int :=
+  match phases with
+  | .seq l => (match selSeq l 0 sx with | some n => some (Int.ofNat n) | none => none)
+  | .dict l => selDict l sx
 
 /-! ### the inverse presentation maps -/
 
